@@ -4,7 +4,7 @@ from __future__ import annotations
 import ast
 from typing import Dict, List, Optional
 
-from .. import consteval, guards, render, sym
+from .. import normal, consteval, guards, render, sym
 from ..model import AnalysisError, Repo
 from ..report import Run
 from ..sym import T, const, param
@@ -22,8 +22,13 @@ EXPLANATION = (
     "accumulate across blocks (extend / += / update-then-extend) and all five attributes are reset once per parse before the "
     "dispatch loop. R6 (logs): every raw record goes through OsLogEvent.from_raw_log_event(record, inverted string index) and "
     "is yielded in order; the table extension is guarded by both process and thread_identifier and writes "
-    "threads_pids[thread] = pid, pids_names[pid] = process. Not decided: the stackshot scan against real files, the "
-    "seek(-8, 1) rewind, the Select fallback of the block layout."
+    "threads_pids[thread] = pid, pids_names[pid] = process (the two local accumulators are identified by their role - what "
+    "the log loop iterates, what the decoder receives - not by their names). R7 (tag scanner): seek_until is reduced to a "
+    "machine and shown to stop right after the first occurrence of each tag the parser passes and to raise at end of stream "
+    "- by the sliding-window theorem or by exploring the product with the tag's KMP automaton (a wrong scanner is reported "
+    "with the shortest witness stream). R8 (block framing): an additional-data block is tag[8] + u64 length + payload + "
+    "filler to the next 8-byte boundary; an explicit filler function / alignment modulus is evaluated for payload lengths "
+    "0..63. Not decided: the stackshot scan against real files, the seek(-8, 1) rewind."
 )
 
 MOD = "pykdebugparser.kd_buf_parser"
@@ -198,6 +203,16 @@ def check(repo: Repo, run: Run) -> None:
                     hit = by_bytes[other.a[0]]
         return hit
 
+    # the two local accumulators are known by their role, not by their name: the list the log loop iterates over holds
+    # the raw log records, the second argument of the log decoder is the string table
+    log_dec = [c for c in rec.calls if c.func == log_call]
+    roles = {}
+    if len(log_yields) == 1 and log_yields[0].loops:
+        ll_ = rec.loops.get(log_yields[0].loops[-1])
+        if ll_ is not None and ll_.iter is not None and ll_.iter.op == "widen":
+            roles[ll_.iter.a[0]] = "log_events"
+    if log_dec and len(log_dec[0].args) > 1 and log_dec[0].args[1].op == "widen":
+        roles[log_dec[0].args[1].a[0]] = "log_strings"
     landed: Dict[str, List[dict]] = {}
     for e in rec.effects:
         if dl.id not in e.loops:
@@ -207,11 +222,11 @@ def check(repo: Repo, run: Run) -> None:
             continue
         pth = e.path if e.path is not None else e.base
         target = _state_name(pth if e.kind != "attr-store" else T("attr", (pth, e.key)))
+        target = roles.get(target, target)
         landed.setdefault(tg, []).append({"kind": e.kind, "key": e.key, "target": target, "aug": e.aug, "value": e.value,
                                           "pc": e.pc, "line": e.lineno})
     # local-variable branches (log_strings = {...}): visible in the widened variable handed to the log decoder
-    log_dec = [c for c in rec.calls if c.func == log_call]
-    ls_term = log_dec[0].args[1] if log_dec and len(log_dec[0].args) > 1 else None
+    ls_term = normal.accum_to_comp(rec, sym.resolve_widens(rec, log_dec[0].args[1])) if log_dec and len(log_dec[0].args) > 1 else None
     if ls_term is not None:
         for x in sym.walk(ls_term):
             if x.op == "ite":
@@ -281,18 +296,21 @@ def check(repo: Repo, run: Run) -> None:
                f"self.{attr} is not reset to its empty value before the blocks are dispatched: sections of an earlier parse "
                f"leak into this one", nontrivial=False, line=fn.lineno)
 
+    check_block_framing(repo, run, mod)
+
     # ------------------------------------------------------------------ R6 logs
     if len(log_yields) == 1 and log_dec:
         ly = log_yields[0]
         lloop = rec.loops.get(ly.loops[-1]) if ly.loops else None
-        src_ok = lloop is not None and lloop.kind == "for" and _widen_of(lloop.iter, "log_events")
+        src_ok = lloop is not None and lloop.kind == "for" and lloop.iter is not None and lloop.iter.op == "widen" \
+            and roles.get(lloop.iter.a[0]) == "log_events" and "TRACEV3_LOG_EVENTS" in landed
         run.ob("R6", MOD, "KdBufParser.parse_v3", "every collected log record is decoded in order", src_ok and not ly.pc,
                "the log loop does not iterate over the collected log records in order / yields conditionally", line=ly.lineno)
-        okargs = log_dec[0].args[0] == (lloop.target if lloop else None) and _widen_of(log_dec[0].args[1], "log_strings")
+        okargs = log_dec[0].args[0] == (lloop.target if lloop else None) and log_dec[0].args[1].op == "widen"
         run.ob("R6", MOD, "KdBufParser.parse_v3", "decoded with the dump's string index", okargs,
                "from_raw_log_event is not called with (record, log_strings)", nontrivial=False)
         # inverted index
-        inv = [x for x in sym.walk(log_dec[0].args[1]) if x.op == "comp" and x.a[0] == "dict"]
+        inv = [x for x in sym.walk(ls_term) if x.op == "comp" and x.a[0] == "dict"]
         ok_inv = False
         for x in inv:
             (elemvar, it, conds) = x.a[2][0]
@@ -320,6 +338,116 @@ def check(repo: Repo, run: Run) -> None:
         run.ob("R6", MOD, "KdBufParser.parse_v3", "extension only when the record names a process and a thread", okg and bool(stores),
                "the thread/process tables are extended without both `process` and `thread_identifier` being present",
                line=ly.lineno)
+
+
+def check_block_framing(repo: Repo, run: Run, mod) -> None:
+    """R8: every additional-data block is  tag[8] + u64 length + payload + filler to the next 8-byte boundary.
+
+    Accepted spellings: `Aligned(8, Prefixed(Int64ul, GreedyBytes))` (alone, or first in a `Select` whose other alternative is
+    the same block without filler - the last block of a file), or `Prefixed(Int64ul, GreedyBytes)` followed by
+    `[Optional(]Padding(f)[)]` where f is evaluated for payload lengths 0..63 and must equal (-length) % 8.  Anything else
+    is undecided."""
+    def deref(n, depth=0):
+        """a name bound at module level to a construct expression stands for that expression"""
+        while isinstance(n, ast.Name) and n.id in mod.constants and depth < 8 and \
+                not (repo.dotted(mod, n) or "").startswith("construct."):
+            n, depth = mod.constants[n.id], depth + 1
+        return n
+    node = deref(repo.constant("kd_buf_parser", "kd_v3_additional_data"))
+
+    def cname(n):
+        n = deref(n)
+        return (repo.dotted(mod, n.func if isinstance(n, ast.Call) else n) or "").replace("construct.", "")
+
+    def named(n):
+        """'name' / X  ->  (name, X)"""
+        n = deref(n)
+        if isinstance(n, ast.BinOp) and isinstance(n.op, ast.Div) and isinstance(n.left, ast.Constant):
+            return n.left.value, deref(n.right)
+        return None, n
+
+    def is_prefixed(n):
+        n = deref(n)
+        return isinstance(n, ast.Call) and cname(n) == "Prefixed" and len(n.args) == 2 and cname(n.args[0]) == "Int64ul" \
+            and cname(n.args[1]) == "GreedyBytes"
+
+    def aligned_modulus(n):
+        """Aligned(m, Prefixed(Int64ul, GreedyBytes)) -> m (an int), else None"""
+        n = deref(n)
+        if isinstance(n, ast.Call) and cname(n) == "Aligned" and len(n.args) == 2 and is_prefixed(n.args[1]):
+            m = consteval.evaluate(repo, mod, n.args[0])
+            return m if isinstance(m, int) and not isinstance(m, bool) and m > 0 else None
+        return None
+
+    def is_aligned_prefixed(n):
+        return aligned_modulus(n) is not None
+
+    if not (isinstance(node, ast.Call) and cname(node) == "GreedyRange" and node.args and isinstance(deref(node.args[0]), ast.Call)
+            and cname(node.args[0]) == "Struct"):
+        raise AnalysisError("kd_v3_additional_data is not GreedyRange(Struct(...)): the block framing cannot be decided")
+    parts = [named(x) for x in deref(node.args[0]).args]
+    if len(parts) < 2 or parts[0][0] != "tag" or parts[1][0] != "data":
+        raise AnalysisError("kd_v3_additional_data: a block is not ('tag', 'data', ...)")
+    tag = parts[0][1]
+    ok_tag = isinstance(tag, ast.Call) and cname(tag) == "Bytes" and consteval.evaluate(repo, mod, tag.args[0]) == 8
+    run.ob("R8", MOD, "kd_v3_additional_data", "block tag is 8 bytes", ok_tag,
+           "the tag of an additional-data block is not Bytes(8)", nontrivial=False, line=node.lineno)
+    data, rest = parts[1][1], parts[2:]
+    verdict, why = None, ""
+    data = deref(data)
+    if not rest and (is_aligned_prefixed(data) or (
+            isinstance(data, ast.Call) and cname(data) == "Select" and data.args and is_aligned_prefixed(data.args[0])
+            and all(is_prefixed(x) or is_aligned_prefixed(x) for x in data.args[1:]))):
+        m = aligned_modulus(data if cname(data) == "Aligned" else data.args[0])
+        # Aligned pads the 8-byte prefix plus the payload to a multiple of m: the filler must be (-length) % 8
+        wrong = next((L for L in range(64) if (-(8 + L)) % m != (-L) % 8), None)
+        verdict = wrong is None
+        if wrong is not None:
+            why = (f"blocks are padded to a multiple of {m} bytes: after a payload of {wrong} bytes the filler is {(-(8 + wrong)) % m} "
+                   f"bytes instead of {(-wrong) % 8}, so the next block's tag is read from the wrong offset")
+    elif is_prefixed(data) and len(rest) == 1:
+        pad = rest[0][1]
+        if isinstance(pad, ast.Call) and cname(pad) == "Optional" and pad.args:
+            pad = pad.args[0]
+        if isinstance(pad, ast.Call) and cname(pad) == "Padding" and pad.args:
+            f = pad.args[0]
+            body = None
+            if isinstance(f, ast.Lambda) and len(f.args.args) == 1:
+                ctx, body = f.args.args[0].arg, f.body
+            elif isinstance(f, ast.Name) and f.id in mod.functions and len(mod.functions[f.id].args.args) == 1:
+                fn_ = mod.functions[f.id]
+                st_ = [x for x in fn_.body if not (isinstance(x, ast.Expr) and isinstance(x.value, ast.Constant))]
+                if len(st_) == 1 and isinstance(st_[0], ast.Return):
+                    ctx, body = fn_.args.args[0].arg, st_[0].value
+            if body is not None:
+                class _Len(ast.NodeTransformer):
+                    def visit_Call(self, n):
+                        self.generic_visit(n)
+                        if isinstance(n.func, ast.Name) and n.func.id == "len" and len(n.args) == 1 \
+                                and ast.unparse(n.args[0]) in (f"{ctx}.data", f"{ctx}['data']", f'{ctx}["data"]'):
+                            return ast.copy_location(ast.Name(id="__payload_length__", ctx=ast.Load()), n)
+                        return n
+                import copy
+                expr = _Len().visit(copy.deepcopy(body))
+                bad = None
+                for L in range(64):
+                    v = consteval.evaluate(repo, mod, expr, local_names={"__payload_length__": L})
+                    if not isinstance(v, int):
+                        bad = "undecided"
+                        break
+                    if v != (-L) % 8:
+                        bad = (L, v)
+                        break
+                if bad != "undecided":
+                    verdict = bad is None
+                    if bad:
+                        why = (f"after a payload of {bad[0]} bytes the filler is computed as {bad[1]} bytes instead of {(-bad[0]) % 8}: "
+                               f"the next block's tag is read from the wrong offset and every later block is lost")
+    if verdict is None:
+        raise AnalysisError("kd_v3_additional_data: the framing of a block (length prefix + filler to 8 bytes) is written in a "
+                            "form that cannot be decided")
+    run.ob("R8", MOD, "kd_v3_additional_data", "block = tag + u64 length + payload + filler to 8 bytes", verdict, why,
+           line=node.lineno, witness=None if verdict else "two trace-code blocks, the first with a payload of that length")
 
 
 def _state_name(path: T) -> Optional[str]:
